@@ -33,6 +33,14 @@ BREAKS = {
     "break-in-except-in-main-loop": ("while True:\n    try:\n        mon.write(1)\n    except Exception as e:\n        break\n", "reject"),
     "break-under-if-in-try-in-main-loop": ("k = 0\nwhile True:\n    k += 1\n    try:\n        if k > 1:\n            break\n        mon.write(k)\n    except Exception as e:\n        mon.write(0)\n", "reject"),
     "break-in-inner-for-in-try": ("while True:\n    try:\n        for i in range(3):\n            if i == 1:\n                break\n            mon.write(i)\n    except Exception as e:\n        mon.write(0)\n    mon.write(9)\n", "accept"),
+    # ... and inside the arms of conditionals that are themselves nested in conditionals of the main loop body
+    "break-in-nested-else-in-main-loop": ("k = 0\nwhile True:\n    k += 1\n    if k > 0:\n        if k > 5:\n            mon.write(1)\n        else:\n            break\n    mon.write(k)\n", "reject"),
+    "break-in-nested-elif-in-main-loop": ("k = 0\nwhile True:\n    k += 1\n    if k > 0:\n        if k > 5:\n            mon.write(1)\n        elif k > 3:\n            break\n    mon.write(k)\n", "reject"),
+    "break-in-else-of-else-in-main-loop": ("k = 0\nwhile True:\n    k += 1\n    if k > 9:\n        mon.write(1)\n    else:\n        if k > 5:\n            mon.write(2)\n        else:\n            break\n", "reject"),
+    "continue-in-nested-else-in-main-loop": ("k = 0\nwhile True:\n    k += 1\n    if k > 0:\n        if k % 2 == 0:\n            mon.write(k)\n        else:\n            continue\n    mon.write(7)\n", "accept"),
+    "continue-in-nested-if-and-elif-in-main-loop": ("k = 0\nwhile True:\n    k += 1\n    if k > 0:\n        if k % 3 == 0:\n            continue\n        elif k % 3 == 1:\n            continue\n        else:\n            mon.write(k)\n    mon.write(7)\n", "accept"),
+    "continue-in-else-of-else-in-main-loop": ("k = 0\nwhile True:\n    k += 1\n    if k > 9:\n        mon.write(1)\n    else:\n        if k % 2 == 0:\n            mon.write(2)\n        else:\n            continue\n    mon.write(7)\n", "accept"),
+    "continue-in-for-in-else-in-main-loop": ("k = 0\nwhile True:\n    k += 1\n    if k > 9:\n        mon.write(1)\n    else:\n        for i in range(3):\n            if i == 1:\n                continue\n            mon.write(i)\n    mon.write(7)\n", "accept"),
     # `continue` that ends the pass: lowered to something that is valid where it stands (a bare `continue;` in loop() is not C++)
     "continue-in-main-loop": ("k = 0\nwhile True:\n    k += 1\n    if k % 2 == 0:\n        continue\n    mon.write(k)\n", "accept"),
     "continue-in-try-body-in-main-loop": ("k = 0\nwhile True:\n    k += 1\n    try:\n        if k % 2 == 0:\n            continue\n        mon.write(k)\n    except Exception as e:\n        mon.write(0)\n    mon.write(7)\n", "accept"),
